@@ -27,7 +27,8 @@ enum class msgpack_errc
     max_nesting_depth_exceeded,
     length_is_negative,
     invalid_timestamp,
-    unknown_type
+    unknown_type,
+    invalid_ext_type
 };
 
 class msgpack_error_category_impl
@@ -64,6 +65,8 @@ public:
                 return "Invalid timestamp";
             case msgpack_errc::unknown_type:
                 return "Unknown type in input";
+            case msgpack_errc::invalid_ext_type:
+                return "Extension type does not fit the one byte MessagePack provides for it";
             default:
                 return "Unknown MessagePack parser error";
         }
